@@ -46,7 +46,7 @@ def shape(freq, name, parts, B=3, K=2, inter=1, cand=2, extra=(), uw=None, **kw)
         unwindset.update({'rrul_fill_Hly.8': parts.get('NDOY', 0) + 2, 'rrul_fill_Hly.9': max(parts.get('NM', 0), 1) * max(parts.get('NS', 0), 1) + 2, 'rrul_fill_Hly.10': 3})
     unwindset.update(uw or {})
     o = dict(name='%s_%s_i%d' % (FNAME[freq], name, inter), src='h_rrul.c', defs=defs, units=U, incl=['src/evrrul.c'], replay_units='all',
-             unwind=4, unwindset=unwindset, solver='cadical', timeout=3000 if freq <= 3 else 1200, mem_gb=16 if freq <= 3 else 6,
+             unwind=4, unwindset=unwindset, solver='minisat', slice_formula=True, timeout=3000 if freq <= 3 else 1200, mem_gb=10 if freq <= 3 else 4,
              extra=['--max-field-sensitivity-array-size', '4'],
              checks=['--bounds-check', '--div-by-zero-check'],
              enc=[FN[freq], 'make_enum', 'fill_*', 'clr_poss', 'shift', 'ymcw_get_dom', 'ywd_to_md', 'yd_to_md', 'ycw_get_yday', 'bitint.h', 'bitint.c', 'echs_scale_ndim/wday'],
